@@ -124,6 +124,12 @@ def run(P, R, tier):
             R.ok('C19.b', g, c, 'the expected sub-part files are read by name (no listing involved)', construct=f'{g.name}: read of expected files')
         R.floor('C19.b', f'reads of the sub-parts in {g.name}', len(dir_reads) + len(exp_reads), 1)
         for c in dir_reads:
+            # reading the listed DIRECTORY itself makes the parquet reader enumerate it a second time, after the gate: a stale second listing drops sub-parts
+            # silently (D27).  The files to read are named explicitly: the expected list, or the listing that passed the gate.
+            a0 = c.args[0]
+            R.check(not (isinstance(a0, ast.Name) and a0.id in listed), 'C19.b', g, c, 'the sub-parts are read by name (no second, unchecked enumeration of the directory)',
+                    f'`{norm(c)[:80]}` reads the directory `{norm(a0)}`: the reader lists it again after the consistency check, and a stale second listing silently drops sub-part files',
+                    construct=f'{g.name}: no second listing')
             rn = C.node(_stmt(c))
             gn = [C.node(s) for s in gates]
             ok = bool(gn) and C.every_path_passes(C.ENTRY, rn, gn)
